@@ -21,13 +21,13 @@ def descriptors(tier):
             k += 1
             if tier == "quick" and k % 3:
                 continue
-            out.append({"kind": "slab", "name": name, "facet": f, "layers": 3 + k % 3, "n_ads": k % 3, "ads": ADS[k % len(ADS)], "i": k})
+            out.append({"kind": "slab", "name": name, "facet": f, "layers": 3 + (k // 3) % 3, "n_ads": (k // 3 + 1) % 3, "ads": ADS[k % len(ADS)], "i": k})
     for ci, name in enumerate(list(crystalfam.COMPOUNDS) + ["SrTiO3", "TiO2"]):
         for fi, f in enumerate([(1, 0, 0), (1, 1, 0)] if name not in ("ZnO", "AlN") else [(0, 0, 1)]):
             k += 1
             if tier == "quick" and k % 2:
                 continue
-            out.append({"kind": "slab", "name": name, "facet": f, "layers": 3, "n_ads": k % 3, "ads": "Au" if "O" in name else "O", "i": k})
+            out.append({"kind": "slab", "name": name, "facet": f, "layers": 3, "n_ads": (k // 2) % 3, "ads": "Au" if "O" in name else "O", "i": k})
     for mi, name in enumerate(["graphene", "BN", "MoS2-2H", "MoS2-1T", "WSe2-2H", "TiS2-1T"]):
         for size in ((3, 5) if tier == "quick" else (3, 4, 5, 6)):
             out.append({"kind": "mono", "name": name, "size": size, "i": 5000 + mi * 10 + size})
@@ -43,7 +43,9 @@ def execute(job):
         exp = "Material2D"
     else:
         try:
-            a = crystalfam.slab(desc["name"], desc["facet"], desc["layers"], True, rng, min_lateral=9.0)
+            # rectangular lateral supercells (one more repeat along a) for every third descriptor
+            a = crystalfam.slab(desc["name"], desc["facet"], desc["layers"], True, rng, min_lateral=9.0,
+                                extra=(1, 0) if desc["i"] % 3 == 0 else (0, 0))
         except Exception as e:
             return {"skip": "builder failed: %s" % e}
         if a is None:
